@@ -13,7 +13,15 @@ CHECK = {
                             "xf_quaternion", "xf_signed_permutation", "xf_to_near_lock", "xf_small_angle",
                             "att_near_lock", "att_huge", "se3_image_near_lock",
                             "ellipse_cov_rankdef", "ellipse_cov_illcond", "ellipse_cov_givens", "ellipse_cov_isotropic",
-                            "ellipse_of_pose", "ellipse_of_position"],
+                            "ellipse_of_pose", "ellipse_of_position",
+                            # cross-application classes (value semantics, aliasing, rvalues, histories, extremes, ties)
+                            "reduce_api", "se3_api_copies", "se3_api_rvalues", "se3_api_transform_types",
+                            "se3_api_neighbours", "ellipse_api", "history_2^8", "history_2^16",
+                            "reduce_history_2^8", "se3_history_2^8", "ellipse_history_2^8",
+                            "reduce_extreme_scale", "reduce_negative_zero_cov", "ellipse_extreme_scale",
+                            "ellipse_exact_ties", "ellipse_negative_zero_cov", "ellipse_tiny_sigma",
+                            "se3_huge_translation", "se3_same_transform_twice", "se3_transform_and_inverse",
+                            "se3_image_at_origin"],
     "required_oracles": ["reduce.pose2d.mean", "reduce.pose2d.cov", "reduce.twist2d.mean", "reduce.twist2d.cov",
                          "reduce.poseandtwist2d", "reduce.outparam_overwrites", "reduce.position3d",
                          "reduce.float_selection", "embed.roundtrip",
@@ -21,28 +29,37 @@ CHECK = {
                          "cov.psd_position3d", "cov.psd_embedded",
                          "se3.identity_position", "se3.identity_attitude", "se3.position", "se3.attitude",
                          "se3.compose_position", "se3.compose_attitude",
-                         "ellipse.centre", "ellipse.order", "ellipse.reconstruct"],
+                         "ellipse.centre", "ellipse.order", "ellipse.reconstruct", "ellipse.accessors",
+                         "reduce.long_double_selection", "reduce.api.copy_semantics", "reduce.api.rvalue_arguments",
+                         "reduce.api.stable_after_neighbour_calls", "reduce.api.long_history",
+                         "reduce.api.inputs_untouched", "reduce.api.results_kept",
+                         "se3.api.copy_semantics", "se3.api.rvalue_and_self_assignment", "se3.api.transform_types",
+                         "se3.api.stable_after_neighbour_calls", "se3.api.long_history", "se3.history_position_drift",
+                         "se3.history_attitude_drift", "se3.api.inputs_untouched",
+                         "ellipse.api.copy_semantics", "ellipse.api.aliasing_and_rvalues",
+                         "ellipse.api.stable_after_neighbour_calls", "ellipse.api.long_history",
+                         "ellipse.api.references_stable", "ellipse.api.inputs_untouched"],
     "required_counters": [],
     "rule": "case = one of three families drawn per index: reduce 30% (Pose3D+Twist3D with components in [-1e4,1e4] "
-            "incl. 0, +-1e4 and 1e-300..1e-6, attitude >= 1e-3 rad from gimbal lock incl. angles up to 1e4 rad, 6x6 and 3x3 "
+            "incl. 0, -0.0, +-1e4, 1e-300..1e-6, denormals, DBL_MIN, integers and equal components, attitude >= 1e-3 rad from gimbal lock incl. angles up to 1e4 rad, 6x6 and 3x3 "
             "covariances Q diag(lambda) Q^T built in long double: SPD, rank 1..n-1, diagonal, condition 1e4..1e8, zero, "
-            "exact integer Gram matrices, single plane rotations at k*pi/4 +- 1e-12..1e-3, isotropic; lambda_max 1e-8..1e8), "
+            "exact integer Gram matrices, single plane rotations at k*pi/4 +- 1e-12..1e-3, isotropic; lambda_max 1e-8..1e8, in 10% of the cases 1e-290..1e290 (the selection copies and the ellipse's SVD rescales: the unchanged code stays finite over the whole double range, probe); zero off-diagonal entries stored as -0.0 in 10%), "
             "se3 40% (pose as above; rigid transforms A, B from unit quaternions, Euler angles, the 24 signed permutations, "
             "pure translations, angles 1e-9..1e-2, half turns, and rotations steering the image to 1e-3..3e-2 rad from "
-            "gimbal lock; translations in [-1e4,1e4]; re-drawn while an image is closer than 1e-3 rad to gimbal lock), "
+            "gimbal lock; translations in [-1e4,1e4] with the same special values, 10% log-spaced up to 1e300 (finite up to ~1e307); A == B, A == B^-1 and T == -R p (image at the origin) 4% each; re-drawn while an image is closer than 1e-3 rad to gimbal lock), "
             "ellipse 30% (2x2 covariances of the same kinds, alone or as the xy block of a 3x3 pose covariance; sigma 1, 10, "
-            "integers, uniform (0,10], log-uniform 1e-12..10); non-trivial = reduce: pose or twist covariance not "
+            "integers, uniform (0,10], log-uniform 1e-12..10 and 1e-200..1e-12 ([1e-3,10] with the extreme covariance scales, so that sqrt(lambda)*sigma stays a normal number); 6% exact ties [[a,b],[b,a]] with dyadic a, b in {0, +-a/2, +-a, +-a(1-2^-20)}); in every family a share of the cases re-runs the call on copied / moved / self-assigned / temporary / aliased arguments, after stream output and sibling objects, and after 2^8+k (0.15..0.5%) or 2^16+k (1e-5..5e-5) earlier calls; non-trivial = reduce: pose or twist covariance not "
             "diagonal/zero/isotropic; se3: not (pure translation of a zero attitude); ellipse: not (diagonal/isotropic/zero "
             "covariance with sigma == 1)",
     "level_text": "exploration: the real reductions, the real operator*(Affine3d, Pose3D) and the real uncertaintyEllipse "
-                  "are executed on 2e5 (quick) / 3e7 (thorough) generated cases; reduced entries are compared bit for bit "
-                  "with the selected (0,1,5) entries (double and float, by-value and out-parameter overloads on pre-filled "
+                  "are executed on 1e6 (quick) / 3e7 (thorough) generated cases; reduced entries are compared bit for bit "
+                  "with the selected (0,1,5) entries (double, float and long double, by-value and out-parameter overloads on pre-filled "
                   "destinations), produced covariances are tested for exact symmetry and lambda_min >= -16 eps trace by a "
                   "long-double Jacobi eigen-solver, the transformed position/attitude are compared with the long-double "
                   "group action (attitude as rotation matrices, tolerance 256 eps / cos pitch, position 256 eps (|p|+|T|)), identity and composition are "
                   "checked on the library's own outputs, ellipses are re-expanded to R diag(a^2,b^2) R^T / sigma^2 and "
                   "compared with the xy covariance (64 eps lambda_max); ASan+UBSan and the live asserts watch the same "
-                  "executions.  The covariance returned by operator* is not examined here (C12).",
+                  "executions; the same calls are repeated on copies, moved-from sources, temporaries, aliased arguments (sigma referring to a member of the pose, accessor references passed back into a constructor), Isometry3d / AffineCompact3d transforms, after stream formatting and sibling objects and after up to 2^16+7 earlier calls, and must give the same bits; references returned by the Ellipse accessors are bound at construction and re-read at the end of the case; pose <- A^-1 (A pose) is iterated 2^7 times against the accumulated rounding budget.  The covariance returned by operator* is not examined here (C12).",
     "level_note": ASAN_NOTE,
     "technique": "runtime monitoring: sanitizer build + long-double definitional oracles (selection, eigenvalues, SE(3) "
                  "action, ellipse re-expansion) over generated poses, covariances, transforms",
@@ -52,6 +69,11 @@ CHECK = {
                     "(as produced by quaternion/Euler/angle-axis constructions); the oracle takes that stored matrix as the rotation",
                     "'rank-deficient' covariances are the double roundings of exactly rank-deficient matrices (their zero "
                     "eigenvalues become +-eps*lambda_max); non-zero eigenvalues span less than 1e8",
-                    "sigma below 1e-12 and covariance eigenvalues outside 1e-16..1e8 (underflow/overflow territory) are not generated",
+                    "sigma below 1e-200 is not generated, nor sigma below 1e-3 together with covariance scales outside "
+                    "1e-8..1e8: sqrt(lambda)*sigma would be subnormal and the radii lose relative accuracy by underflow, not by a defect",
+                    "pose positions below the normal range are compared with an absolute floor of 32 denorm_min (the rounding "
+                    "unit there is absolute); pose components beyond 1e4 are outside the quantifier, translations are not",
+                    "repeated evaluation of the same call with the same values is required to be bitwise reproducible (same "
+                    "binary, same code path)",
                     "g++ 12 ASan+UBSan runtime; asserts live (no -DNDEBUG)"],
 }
